@@ -46,7 +46,7 @@ RULE = ("(1) multi-line texts fed line by line: evaluating programs (2-5 interle
         "`hy -i` child on a pipe with probe inputs. Non-trivial = history with a failed input between two "
         "successful valued inputs, or text with an input spanning >= 2 lines followed by another input; "
         "distinct by case content.")
-FLOOR = {"quick": 800, "thorough": 5000}
+FLOOR = {"quick": 300, "thorough": 5000}
 BUDGET = {"quick": 30, "thorough": 480}
 CASE_TIMEOUT = 60
 NEEDS_EVENTS = True
@@ -491,8 +491,10 @@ def _run_sub(case):
     res = {"ok": True, "nontrivial": nt, "classes": ["kind:sub", "ofn:" + ofn] + cl, "events": 0}
     viol, info = _check_sub(hist, ofn)
     if viol is None:
+        # the child did not finish in time: this sub-check is skipped, never a violation
         _bump("sub:timeout")
         res["ok"] = None
+        res["classes"].append("skip:child-timeout")
         return res
     _bump("sub:sessions")
     res["events"] = info.get("events", 0)
@@ -511,11 +513,13 @@ def _run_sub(case):
 def run_case(case):
     k = case["kind"]
     _bump("case:" + k)
-    if k == "hist":
-        return _run_hist(case)
-    if k == "sub":
-        return _run_sub(case)
-    return _run_text(case)
+    # no startup file, no spy, no inherited warning filter (see hv/replgen.py:clean_session)
+    with G.clean_session():
+        if k == "hist":
+            return _run_hist(case)
+        if k == "sub":
+            return _run_sub(case)
+        return _run_text(case)
 
 
 def finish_worker():
